@@ -13,7 +13,7 @@ OPT      := -O1 -g
 DEFS     := -DPHOTOSPLINE_INCLUDES_SPGLAM -DPHOTOSPLINE_VERSION=2.1.0 -DPHOTOSPLINE_VERIF
 REPOINC  := -I$(REPO)/include -I$(REPO)/src/fitter -I/usr/include/suitesparse
 CFLAGS_R := -std=gnu99 $(OPT) $(DEFS) $(REPOINC) -MMD -MP
-CXXFLAGS := -std=gnu++17 $(OPT) $(DEFS) $(REPOINC) -I. -Wall -Wno-unused-parameter -Wno-sign-compare -Wno-unknown-pragmas -MMD -MP
+CXXFLAGS := -std=gnu++17 $(OPT) $(DEFS) $(REPOINC) -I$(CURDIR) -Wall -Wno-unused-parameter -Wno-sign-compare -Wno-unknown-pragmas -MMD -MP
 CXX11_R  := -std=gnu++11 $(OPT) $(DEFS) $(REPOINC) -msse2 -msse3 -msse4 -msse4.1 -msse4.2 -mno-avx -MMD -MP
 
 MATHLIBS := -lspqr -lcholmod -lcamd -lccolamd -lamd -lcolamd -lsuitesparseconfig -lopenblas -lmetis -lm
@@ -34,10 +34,10 @@ clean:
 # ---------------------------------------------------------------- shared
 $(B)/asan/sim/%.o: sim/%.cpp
 	@mkdir -p $(dir $@)
-	$(CXX) $(CXXFLAGS) $(SAN) -c $< -o $@
+	$(CXX) $(CXXFLAGS) $(SAN) -c $(abspath $<) -o $@
 $(B)/asan/harness/%.o: harness/%.cpp
 	@mkdir -p $(dir $@)
-	$(CXX) $(CXXFLAGS) $(SAN) -c $< -o $@
+	$(CXX) $(CXXFLAGS) $(SAN) -c $(abspath $<) -o $@
 
 # repository objects, ASan+UBSan variant (asserts stay enabled: no -DNDEBUG)
 $(B)/asan/repo/fitter/%.o: $(REPO)/src/fitter/%.c
